@@ -1,10 +1,12 @@
 GO_PKG = "./dual"
 GO_PKGNAME = "dual"
 HARNESS = ["dual/c15_test.go"]
+# inbound messages are delivered through the unexported handler table of IpfsDHT: a verif-tagged shim injected into package dht
+EXTRA_OVERLAY = {"zz_verif_c15_shim.go": "dht/c15_shim.go"}
 GO_TEST = "TestVerifC15"
 RUN_MODULE = "Run_C15"
 COQ_TARGETS = ["Corr/Run_C15.vo", "Proofs/DualProofs.vo", "Proofs/AddrClassProofs.vo"]
-N = {"quick": 420, "thorough": 9000}
+N = {"quick": 520, "thorough": 10000}
 GO_TIMEOUT = {"quick": 600, "thorough": 2400}
 RULE = ("real dual DHTs (dual.New on a fake host, scripted message senders for the two inner IpfsDHTs). Case kinds: addr - the exported "
         "filters and the two AddressFilter closures on address lists; a deterministic sweep first walks every boundary +-1 of go-multiaddr's "
@@ -13,13 +15,23 @@ RULE = ("real dual DHTs (dual.New on a fake host, scripted message senders for t
         "lookup - a WAN or LAN lookup whose seed refers 1-5 peers with mixed address sets (target / not target, addresses already known); "
         "write - Provide/PutValue over all 2x2 table-emptiness combinations; get / findpeer - all 2x2 emptiness x has/has-not combinations with "
         "per-DHT results measured on twin instances; prov - FindProvidersAsync with count in {0,1,2,3,20,-1,random}, WAN-first / LAN-first / "
-        "unforced arrival; combine - all 36 pairs of nil / sentinel / fresh errors. distinct = distinct signatures (kind, classes reached, outcomes)")
+        "unforced arrival; combine - all 36 pairs of nil / sentinel / fresh errors; inbound - the three provider-record sites of the WAN and of the "
+        "LAN inner DHT: an inbound ADD_PROVIDER (wire-encoded, through the DHT's handler table; 1-3 entries of the sender / other peers / this "
+        "node, with and without addresses, bad keys, addresses already known) -> peerstore and provider store afterwards; a served GET_PROVIDERS "
+        "whose providers (this node included) have mixed peerstore addresses, some put there by the other inner DHT -> addresses attached per "
+        "record; an inner FindProvidersAsync (count 0-3) against 1-2 scripted responders naming providers (this node and connected peers "
+        "included) -> peerstore afterwards; address sets all-private, all-loopback, both, mixed, all-public, relay, dns, empty, random; a "
+        "deterministic part runs every class x both DHTs x the three sites on every run (so the sets a filter empties are always there). distinct = distinct signatures (kind, classes reached, outcomes)")
 TRUSTED = [
     "go-multiaddr v0.16.1 net/private.go CIDR tables and special-use domain lists, net.IP.To4 / IPNet.Contains / IsLoopback: hand-copied into "
     "Model/AddrClass.v, compared with the real functions at every CIDR boundary +-1 on every run (modelled, not verified)",
     "inner IpfsDHT operations (lookup, Provide, PutValue, GetValue, FindPeer, FindProvidersAsync) are inputs of the dual model; their own "
     "correctness belongs to C01-C08. Assumed: a write on an empty routing table contacts nobody and fails with kb.ErrLookupFailure",
-    "the fake host (Connect always succeeds, nobody is ever 'connected', in-memory peerstore) and the scripted senders",
+    "the fake host (Connect always succeeds, nobody is 'connected' except the peers an inbound find_providers case marks, in-memory "
+    "peerstore shared by the two inner DHTs) and the scripted senders; inbound messages are built with pb.RawPeerInfosToPBPeers, marshalled, "
+    "unmarshalled and given to dht.handlerForMsgType(type) as handleNewMessage does (shim harness/dht/c15_shim.go)",
+    "provider records are small: boundPeerRecordAddrs / the MessageSizeMax cap of a GET_PROVIDERS response never cut anything in the "
+    "correspondence run (the theorems hold for every cut-off); the provider store (records.ProviderManager on an in-memory datastore) does not fail",
     "Go map iteration order is treated as a set (FindPeer address list)",
 ]
 ASSUMPTIONS = [
@@ -41,7 +53,11 @@ LEVEL_TEXT = ("Theorems in coq/Props/C15.v hold for all inputs: writes go to the
               "WAN result when WAN succeeds, else the LAN result, else the combined error (never nil); FindPeer returns the union of both address "
               "sets without duplicates; the provider merge yields each provider once, at most count, only received ones, and loses none below the "
               "cap, for every interleaving of the two streams; a peer enters a WAN lookup only as the target or with a public non-relay address; "
-              "everything the WAN DHT stores from DHT messages or advertises is public and the LAN DHT never stores or advertises loopback; public and "
+              "everything the WAN DHT stores from DHT messages or advertises is public and the LAN DHT never stores or advertises loopback - for lookup "
+              "responses, for own addresses, and (for all messages) at the three provider-record sites: what an inbound ADD_PROVIDER writes to the "
+              "peerstore, what a GET_PROVIDERS response attaches to a provider record, what a provider search stores of the providers a response "
+              "names are addresses of that very peer in that message which pass the DHT's address filter, and every such address of an accepted / "
+              "attached / processed record is kept (an announcement the filter empties is recorded without any address); public and "
               "private classes are disjoint and loopback is never public.")
 LEVEL_NOTE = ("Proof is about the Gallina model; the CIDR tables and domain lists are a dependency's data (modelled, compared at every boundary, not "
               "proved equal); inner DHT operations are inputs. Trusted: Coq kernel, vm_compute, harness fakes.")
